@@ -150,6 +150,15 @@ def prepare(backends=("f64", "dec"), needed=ALL_GROUPS):
     t = {}
     t0 = time.time()
     translate()
+    # numeric literals of the algorithm sources that the verified snapshot does not contain: a dictionary
+    # for the input generators (empty on the unchanged tree)
+    try:
+        import literals
+        lits = literals.write(REPO, VERIF)
+        if lits:
+            t["code_literals"] = [str(v) for v in lits]
+    except Exception as e:  # noqa: BLE001 - a search heuristic must never stop a check
+        t["code_literals_error"] = str(e)[:200]
     t["translate"] = time.time() - t0
     t0 = time.time()
     build_driver()
